@@ -81,6 +81,117 @@ type fieldHook struct{}
 
 func (fieldHook) Run(e *zerolog.Event, _ zerolog.Level, _ string) { e.Str("hook", "ran") }
 
+// a sampler that admits nothing: every event of a logger carrying it is filtered out
+type rejectSampler struct{}
+
+func (rejectSampler) Sample(zerolog.Level) bool { return false }
+
+// an array rendered through the LogArrayMarshaler interface (Event.Array draws the pooled *Array itself)
+type idsArr []int
+
+func (a idsArr) MarshalZerologArray(arr *zerolog.Array) {
+	for _, v := range a {
+		arr.Int(v)
+	}
+}
+
+// an object whose rendering draws a pooled array and a pooled dict
+type arrObj struct{ n int }
+
+func (o arrObj) MarshalZerologObject(e *zerolog.Event) {
+	e.Array("ids", zerolog.Arr().Int(o.n).Int(o.n+1)).Dict("sub", zerolog.Dict().Int("n", o.n))
+}
+
+var pad600 = strings.Repeat("s", 600)
+
+// the pooled arguments a FILTERED event (nil *Event) is handed: it must give them back to their pools in a state
+// that leaves no trace in whatever draws them next
+func secretArr() *zerolog.Array {
+	return zerolog.Arr().Str("secret-a").Str("secret-b").Int(7)
+}
+func secretDict() *zerolog.Event {
+	return zerolog.Dict().Str("secret", "dict").Int("n", 7)
+}
+
+const secretArrSrc = `Arr().Str("secret-a").Str("secret-b").Int(7)`
+const secretDictSrc = `Dict().Str("secret", "dict").Int("n", 7)`
+
+// how an event gets filtered out: the chain receives the logger under test and returns the event (nil) the
+// pooled arguments are then handed to
+type filterMode struct {
+	name, src string
+	start     func(l zerolog.Logger) *zerolog.Event
+}
+
+func filterModes() []filterMode {
+	return []filterMode{
+		{"level", `l.Level(WarnLevel).Info()`, func(l zerolog.Logger) *zerolog.Event { l2 := l.Level(zerolog.WarnLevel); return l2.Info() }},
+		{"disabled-level", `l.Level(Disabled).Error()`, func(l zerolog.Logger) *zerolog.Event { l2 := l.Level(zerolog.Disabled); return l2.Error() }},
+		{"sampled-out", `l.Sample(rejectAll).Info()`, func(l zerolog.Logger) *zerolog.Event { l2 := l.Sample(rejectSampler{}); return l2.Info() }},
+		{"nop-logger", `zerolog.Nop().Info()`, func(l zerolog.Logger) *zerolog.Event { l2 := zerolog.Nop(); return l2.Info() }},
+		{"nil-writer", `l.Output(nil).Warn()`, func(l zerolog.Logger) *zerolog.Event { l2 := l.Output(nil); return l2.Warn() }},
+		{"discard-then", `l.Info().Str("k", "v").Discard()`, func(l zerolog.Logger) *zerolog.Event { return l.Info().Str("k", "v").Discard() }},
+		{"child-below-level", `l.Level(ErrorLevel).With().Str("c", "1").Logger().Debug()`, func(l zerolog.Logger) *zerolog.Event {
+			l2 := l.Level(zerolog.ErrorLevel).With().Str("c", "1").Logger()
+			return l2.Debug()
+		}},
+	}
+}
+
+// what the filtered event is given (every entry draws at least one pooled object before the event sees it)
+type filteredArgs struct {
+	name, src string
+	apply     func(e *zerolog.Event)
+}
+
+func filteredArgSets() []filteredArgs {
+	return []filteredArgs{
+		{"array", `.Array("tokens", ` + secretArrSrc + `).Msg("verbose")`, func(e *zerolog.Event) { e.Array("tokens", secretArr()).Msg("verbose") }},
+		{"dict", `.Dict("d", ` + secretDictSrc + `).Msg("verbose")`, func(e *zerolog.Event) { e.Dict("d", secretDict()).Msg("verbose") }},
+		{"array-and-dict", `.Array("a", ` + secretArrSrc + `).Dict("d", ` + secretDictSrc + `).Array("b", Arr().Str("secret-c")).Send()`, func(e *zerolog.Event) {
+			e.Array("a", secretArr()).Dict("d", secretDict()).Array("b", zerolog.Arr().Str("secret-c")).Send()
+		}},
+		{"array-of-pooled", `.Array("a", Arr().Dict(` + secretDictSrc + `).Object(causeObj{errInner}).Err(wrapErr{errInner, 9}).Str("secret-a")).Msg("verbose")`, func(e *zerolog.Event) {
+			e.Array("a", zerolog.Arr().Dict(secretDict()).Object(causeObj{errInner}).Err(wrapErr{errInner, 9}).Str("secret-a")).Msg("verbose")
+		}},
+		{"dict-with-array", `.Dict("d", Dict().Array("a", ` + secretArrSrc + `).Stack().Err(errInner)).Msg("verbose")`, func(e *zerolog.Event) {
+			e.Dict("d", zerolog.Dict().Array("a", secretArr()).Stack().Err(errInner)).Msg("verbose")
+		}},
+		{"grown-array", `.Array("a", Arr().Str(600 bytes).Str("secret-a")).Dict("d", Dict().Str("pad", 600 bytes)).Msg("verbose")`, func(e *zerolog.Event) {
+			e.Array("a", zerolog.Arr().Str(pad600).Str("secret-a")).Dict("d", zerolog.Dict().Str("pad", pad600)).Msg("verbose")
+		}},
+		{"marshalers", `.Array("m", idsArr{7, 8, 9}).Object("o", arrObj{7}).Errs("es", []error{wrapErr{errInner, 7}, errInner}).Fields(map[string]interface{}{"es": []error{wrapErr{errInner, 8}}, "o": causeObj{errInner}}).EmbedObject(arrObj{8}).Msg("verbose")`, func(e *zerolog.Event) {
+			e.Array("m", idsArr{7, 8, 9}).Object("o", arrObj{7}).Errs("es", []error{wrapErr{errInner, 7}, errInner}).Fields(map[string]interface{}{"es": []error{wrapErr{errInner, 8}}, "o": causeObj{errInner}}).EmbedObject(arrObj{8}).Msg("verbose")
+		}},
+	}
+}
+
+// the chains that hand pooled arguments to a filtered event: filter modes x argument sets (each argument set with
+// every filter mode; the table stays small by pairing them in rotation and taking the full product for "level")
+func filteredChains() []*dchain {
+	var out []*dchain
+	modes, args := filterModes(), filteredArgSets()
+	add := func(m filterMode, a filteredArgs) {
+		out = append(out, &dchain{"filtered-" + m.name + "-" + a.name, "pooled arguments of a FILTERED event (" + m.name + "): " + a.name, m.src + a.src, func(l zerolog.Logger) {
+			a.apply(m.start(l))
+		}})
+	}
+	for ai, a := range args {
+		add(modes[0], a)
+		add(modes[1+ai%(len(modes)-1)], a)
+	}
+	// every other filter mode with the plain array and the plain dict
+	for mi := 1; mi < len(modes); mi++ {
+		for ai := 0; ai < 2; ai++ {
+			if mi == 1+ai%(len(modes)-1) {
+				continue // already there
+			}
+			add(modes[mi], args[ai])
+		}
+	}
+	return out
+}
+
 // ---------------------------------------------------------------- the chain table
 type dchain struct {
 	name   string
@@ -93,7 +204,7 @@ var pad2000 = strings.Repeat("x", 2000)
 var pad70k = strings.Repeat("y", 70000)
 
 func chainTable() []*dchain {
-	return []*dchain{
+	t := []*dchain{
 		// ---- chains that leave per-event state behind
 		{"stack-err", "stack", `l.Error().Stack().Err(errInner).Msg("boom")`, func(l zerolog.Logger) {
 			l.Error().Stack().Err(errInner).Msg("boom")
@@ -198,7 +309,34 @@ func chainTable() []*dchain {
 			runtime.Gosched()
 			e.Err(errInner).Msg("held2")
 		}},
+		// ---- chains that draw pooled arrays (Arr() itself, through a LogArrayMarshaler, Errs, a context, an object)
+		{"plain-array", "", `l.Info().Int("g", 7).Array("ids", Arr().Int(0).Int(1)).Msg("done")`, func(l zerolog.Logger) {
+			l.Info().Int("g", 7).Array("ids", zerolog.Arr().Int(0).Int(1)).Msg("done")
+		}},
+		{"empty-array", "", `l.Info().Array("none", Arr()).Dict("nothing", Dict()).Msg("empty")`, func(l zerolog.Logger) {
+			l.Info().Array("none", zerolog.Arr()).Dict("nothing", zerolog.Dict()).Msg("empty")
+		}},
+		{"array-marshaler", "", `l.Info().Array("m", idsArr{0, 1}).Errs("es", []error{errInner}).Msg("marshaled")`, func(l zerolog.Logger) {
+			l.Info().Array("m", idsArr{0, 1}).Errs("es", []error{errInner}).Msg("marshaled")
+		}},
+		{"context-array", "", `l.With().Array("ctxids", Arr().Int(0).Int(1)).Dict("ctxd", Dict().Int("n", 0)).Logger().Info().Msg("ctxarr")`, func(l zerolog.Logger) {
+			l2 := l.With().Array("ctxids", zerolog.Arr().Int(0).Int(1)).Dict("ctxd", zerolog.Dict().Int("n", 0)).Logger()
+			l2.Info().Msg("ctxarr")
+		}},
+		{"object-with-array", "", `l.Info().Object("o", arrObj{0}).Msg("objarr")`, func(l zerolog.Logger) {
+			l.Info().Object("o", arrObj{0}).Msg("objarr")
+		}},
+		{"held-array", "", `a := Arr().Int(0); e := l.Info(); runtime.Gosched(); a.Int(1); e.Array("ids", a).Msg("heldarr")`, func(l zerolog.Logger) {
+			a := zerolog.Arr().Int(0)
+			e := l.Info()
+			runtime.Gosched()
+			a.Int(1)
+			e.Array("ids", a).Msg("heldarr")
+		}},
 	}
+	// ---- chains that hand pooled arguments to a FILTERED event (they write nothing; what they leave in the pools
+	//      must not show in any other chain)
+	return append(t, filteredChains()...)
 }
 
 // invoke runs one chain through a child of root that carries the chain's id; always entered from here so that
@@ -304,7 +442,7 @@ func directedHistories(c *Ctx) {
 						if mark <= len(got) && sameLines(got[:mark], want[:len(want)-len(ref[vi])]) {
 							got, exp = got[mark:], ref[vi]
 						}
-						c.Violate(Violation{Key: "line-depends-on-pool-history", Monitor: "pool-history-sequential", Desc: fmt.Sprintf("chain %q run after %d x chain %q (same goroutine, nothing else running) writes something else than the same chain run alone on fresh pools: state of a pooled Event leaked from one event into another", V.name, k, T.name), Case: desc, Observed: quoteLines(got), Expected: quoteLines(exp)})
+						c.Violate(Violation{Key: "line-depends-on-pool-history", Monitor: "pool-history-sequential", Desc: fmt.Sprintf("chain %q run after %d x chain %q (same goroutine, nothing else running) writes something else than the same chain run alone on fresh pools: state of a pooled Event / Array leaked from one event into another", V.name, k, T.name), Case: desc, Observed: quoteLines(got), Expected: quoteLines(exp)})
 					}
 				}
 			}
